@@ -34,7 +34,7 @@ impl Server {
             let raw_response = Server::bad_request_response(message);
             let boxed_stream = stream.write_all(raw_response.borrow());
             if boxed_stream.is_ok() {
-                stream.flush().unwrap();
+                let _ = stream.flush();
             };
             return raw_response;
         }
@@ -54,7 +54,7 @@ impl Server {
             let raw_response = Server::bad_request_response(message);
             let boxed_stream = stream.write_all(raw_response.borrow());
             if boxed_stream.is_ok() {
-                stream.flush().unwrap();
+                let _ = stream.flush();
             };
             return raw_response;
         }
@@ -70,7 +70,7 @@ impl Server {
 
         let boxed_stream = stream.write_all(raw_response.borrow());
         if boxed_stream.is_ok() {
-            stream.flush().unwrap();
+            let _ = stream.flush();
         };
 
         raw_response
@@ -122,7 +122,7 @@ impl Server {
             let raw_response = Server::bad_request_response(read_message.clone());
             let boxed_stream = stream.write_all(raw_response.borrow());
             if boxed_stream.is_ok() {
-                stream.flush().unwrap();
+                let _ = stream.flush();
             } else {
                 let write_message = boxed_stream.err().unwrap().to_string();
                 let combined_error = [read_message.clone(), SYMBOL.comma.to_string(), write_message].join(SYMBOL.empty_string);
@@ -146,7 +146,7 @@ impl Server {
             let raw_response = Server::bad_request_response(message.clone());
             let boxed_stream = stream.write_all(raw_response.borrow());
             if boxed_stream.is_ok() {
-                stream.flush().unwrap();
+                let _ = stream.flush();
             } else {
                 let write_message = boxed_stream.err().unwrap().to_string();
                 let combined_error = [message, SYMBOL.comma.to_string(), write_message].join(SYMBOL.empty_string);
@@ -165,7 +165,7 @@ impl Server {
 
             let boxed_stream = stream.write_all(response.borrow());
             if boxed_stream.is_ok() {
-                stream.flush().unwrap();
+                let _ = stream.flush();
             } else {
                 let write_message = boxed_stream.err().unwrap().to_string();
                 return Err(write_message);
@@ -184,7 +184,11 @@ impl Server {
 
         let boxed_stream = stream.write_all(raw_response.borrow());
         if boxed_stream.is_ok() {
-            stream.flush().unwrap();
+            let boxed_flush = stream.flush();
+            if boxed_flush.is_err() {
+                let flush_message = boxed_flush.err().unwrap().to_string();
+                return Err(flush_message);
+            }
         } else {
             let write_message = boxed_stream.err().unwrap().to_string();
             return Err(write_message);
